@@ -1,6 +1,7 @@
 import CalVerif.Prim.Wire
 import CalVerif.Model.Ovba
 import CalVerif.Spec.OvbaContainer
+import CalVerif.Spec.OvbaDir
 /-! Driver for C18 (one request line → one reply line).
 
     `dec <hex>`            → `ok <hex>` | `err:<class>` | `panic:<site>` | `fuel`  model of `decompress_stream`
@@ -12,6 +13,13 @@ import CalVerif.Spec.OvbaContainer
     `dir <hex>`            → `ok <cp> <refs> <mods>` | `err:<class>` | `panic`    model of the `dir` stream walk
     `proj <dir|?> <streams>` → `ok <cp> <refs> <modules>` | …                     model of `VbaProject::from_cfb`
     `cps`                  → the code pages the model accepts, comma separated
+    `dirser <19 fields>`   → `<wf 0|1> <hex of serDir p>`: the Lean spec encoder of the dir stream (`dir_walk` is about
+                             these bytes); fields: sysKind compat|~ lcid lcidInvoke codepage name doc docU help1 help2
+                             helpContext libFlags verMajor verMinor constants constantsU cookie refs mods, where
+                             refs = `;`-joined `name:nameU:G:libid` | `name:nameU:P:abs:rel:major:minor` |
+                             `name:nameU:C:orig|~:twiddled:extName|~:extNameU|~:extended:guid:cookie`,
+                             mods = `;`-joined `name:nameU:stream:streamU:doc:docU:offset:helpContext:cookie:document:readOnly:private`
+                             (byte strings hex, `-` = empty, `~` = absent, lists `-` when empty)
 
     `<chunks>`  = chunk `/` chunk …  (`-` = no chunk);  chunk = `R<hex>` (raw) or `C` token `,` token …;
                   token = `L<hex>` (a run of literal bytes) or `K<off>:<len>` (copy token)
@@ -81,6 +89,61 @@ def parseStreams (s : String) : Option (List (Bytes × Bytes)) :=
       | _, _ => none
     | _ => none
 
+def optHex (s : String) : Option (Option Bytes) :=
+  if s = "~" then some none else (bytesOfHex s).map some
+
+def parseRef (s : String) : Option RefSpec :=
+  match s.splitOn ":" with
+  | [n, u, "G", l] => do
+    let n ← bytesOfHex n; let u ← bytesOfHex u; let l ← bytesOfHex l
+    pure { name := n, nameUnicode := u, body := .registered l }
+  | [n, u, "P", a, r, ma, mi] => do
+    let n ← bytesOfHex n; let u ← bytesOfHex u; let a ← bytesOfHex a; let r ← bytesOfHex r
+    let ma ← ma.toNat?; let mi ← mi.toNat?
+    pure { name := n, nameUnicode := u, body := .project a r ma mi }
+  | [n, u, "C", o, tw, en, eu, ext, g, c] => do
+    let n ← bytesOfHex n; let u ← bytesOfHex u; let o ← optHex o; let tw ← bytesOfHex tw
+    let en ← optHex en; let eu ← optHex eu; let ext ← bytesOfHex ext; let g ← bytesOfHex g; let c ← c.toNat?
+    let extName := match en, eu with
+      | some a, some b => some (a, b)
+      | _, _ => none
+    pure { name := n, nameUnicode := u, body := .control o tw extName ext g c }
+  | _ => none
+
+def parseBool (s : String) : Option Bool := if s = "1" then some true else if s = "0" then some false else none
+
+def parseMod (s : String) : Option ModuleSpec :=
+  match s.splitOn ":" with
+  | [n, nu, st, su, d, du, off, hc, ck, doc, ro, pv] => do
+    let n ← bytesOfHex n; let nu ← bytesOfHex nu; let st ← bytesOfHex st; let su ← bytesOfHex su
+    let d ← bytesOfHex d; let du ← bytesOfHex du
+    let off ← off.toNat?; let hc ← hc.toNat?; let ck ← ck.toNat?
+    let doc ← parseBool doc; let ro ← parseBool ro; let pv ← parseBool pv
+    pure { name := n, nameUnicode := nu, streamName := st, streamNameUnicode := su, doc := d, docUnicode := du,
+           offset := off, helpContext := hc, cookie := ck, document := doc, readOnly := ro, priv := pv }
+  | _ => none
+
+def parseList {α : Type} (f : String → Option α) (s : String) : Option (List α) :=
+  if s = "-" then some [] else (s.splitOn ";").mapM f
+
+def parseDir (w : List String) : Option DirSpec :=
+  match w with
+  | [sk, compat, lcid, lcidI, cp, name, doc, docU, h1, h2, hc, lf, vma, vmi, cs, csU, cookie, refs, mods] => do
+    let sk ← sk.toNat?
+    let compat ← (if compat = "~" then some none else compat.toNat?.map some)
+    let lcid ← lcid.toNat?; let lcidI ← lcidI.toNat?; let cp ← cp.toNat?
+    let name ← bytesOfHex name; let doc ← bytesOfHex doc; let docU ← bytesOfHex docU
+    let h1 ← bytesOfHex h1; let h2 ← bytesOfHex h2
+    let hc ← hc.toNat?; let lf ← lf.toNat?; let vma ← vma.toNat?; let vmi ← vmi.toNat?
+    let cs ← bytesOfHex cs; let csU ← bytesOfHex csU; let cookie ← cookie.toNat?
+    let refs ← parseList parseRef refs
+    let mods ← parseList parseMod mods
+    pure { sysKind := sk, compat := compat, lcid := lcid, lcidInvoke := lcidI, codepage := cp, name := name,
+           doc := doc, docUnicode := docU, help1 := h1, help2 := h2, helpContext := hc, libFlags := lf,
+           versionMajor := vma, versionMinor := vmi, constants := cs, constantsUnicode := csU, refs := refs,
+           cookie := cookie, modules := mods }
+  | _ => none
+
 def handle (line : String) : String :=
   match words line with
   | ["dec", h] => match bytesOfHex h with
@@ -117,6 +180,9 @@ def handle (line : String) : String :=
       | r => tagOf r
     | _, _ => "bad-request"
   | ["cps"] => ",".intercalate (knownCodepages.map toString)
+  | "dirser" :: w => match parseDir w with
+    | some p => s!"{if p.wf then 1 else 0} {hexOrDash (serDir p)}"
+    | none => "bad-request"
   | _ => "bad-request"
 
 def main : IO Unit := Wire.run handle
